@@ -1,4 +1,5 @@
 //! Shared helpers for the correspondence-check binaries.
+pub mod e2e;
 
 /// splitmix64: every random choice of a run derives from one state.
 #[derive(Clone)]
